@@ -100,6 +100,8 @@ class Recorder:
         self.max_violations = 20
         self.tier = 'quick'
         self.seed = 1
+        # the variant (child) run repeats the check at about a tenth of the budget
+        self.reduced = bool(os.environ.get('VERIF_CHILD'))
 
     def execute(self, case):
         # A single case works on tiny inputs and takes micro- to milliseconds (the largest, a one-million-byte text,
@@ -185,6 +187,10 @@ class Recorder:
         tags = tuple(sorted(getattr(self.mod, 'LAST_TAGS', ()) or ()))
         return self.run(case, failures=fs, classes=tags + tuple(kw.pop('classes', ())), **kw)
 
+    def keep(self, i, every=16):
+        """Enumeration thinning for the variant run: every case normally, every `every`-th there."""
+        return (not self.reduced) or i % every == 0
+
     def note_violation(self, case, failures):
         sigs = {f['sig'] for f in failures}
         for c, fs in self.violations:
@@ -206,6 +212,8 @@ class Recorder:
         from hypothesis import HealthCheck, Phase, given, settings
         rec = self
         rec._pending = None
+        if self.reduced:
+            max_examples = max(5, max_examples // 10)
         phases = [Phase.explicit, Phase.generate, Phase.target]
         if shrink:
             phases.append(Phase.shrink)
@@ -246,6 +254,8 @@ class Recorder:
         from hypothesis import HealthCheck, settings
         from hypothesis.stateful import run_state_machine_as_test
         self._pending = None
+        if self.reduced:
+            max_examples = max(5, max_examples // 10)
         st = settings(max_examples=max_examples, stateful_step_count=steps, database=None, deadline=None,
                       report_multiple_bugs=False, print_blob=False,
                       suppress_health_check=[HealthCheck.too_slow, HealthCheck.data_too_large,
@@ -328,6 +338,10 @@ class Ctx(Recorder):
             for d in pool.imap_unordered(_pool_entry, args):
                 self.absorb(d)
 
+    def scale(self, n, floor=1):
+        """Budget of a generated block: the variant (child) run uses a tenth."""
+        return max(floor, n // 10) if self.reduced else n
+
     def elapsed(self):
         return time.time() - self.t0
 
@@ -366,7 +380,8 @@ class Ctx(Recorder):
             'wall_s': round(self.elapsed(), 3),
             'violations': len(self.violations),
         }
-        with open(os.path.join(VERIF, 'evidence', f'{self.pid}.json'), 'w') as f:
+        name = f'{self.pid}.json' if not os.environ.get('VERIF_CHILD') else os.path.join('replays', f'{self.pid}.variant.json')
+        with open(os.path.join(VERIF, 'evidence', name), 'w') as f:
             json.dump(ev, f, indent=1, default=jdefault)
         for ln in self.known_lines:
             print(ln)
